@@ -143,6 +143,7 @@ Definition enc_item (tag0 : bool) (it : item) (v : ival) : option (list N) :=
   | IOpt ps, XL [r] => enc_row ps r
   | IReq0 ps, XNone => if tag0 then None else Some []
   | IReq0 ps, XL [r] => if tag0 then enc_row ps r else None
+  | IPad _ _ _, XNone => Some []
   | _, _ => None
   end.
 
@@ -167,6 +168,9 @@ Definition dec_item (tag0 : bool) (it : item) (d : list N) : option (ival * list
   | IReq0 ps =>
       if tag0 then match dec_row ps d with Some (r, d') => Some (XL [r], d') | None => None end
       else Some (XNone, d)
+  | IPad w a n =>
+      (* EmberKeyStruct.deserialize: exactly w bytes left -> n zero bytes are spliced in at offset a *)
+      Some (XNone, if (List.length d =? w)%nat then firstn a d ++ repeat 0 n ++ skipn a d else d)
   end.
 
 Definition is_tag0 (vs : list ival) : bool :=
@@ -209,6 +213,31 @@ Definition wf_prim (p : prim) : bool :=
 Definition wf_row (ps : list prim) : bool :=
   match ps with [] => false | _ => forallb wf_prim ps end.
 
+(* the exact wire size of an item whose size does not depend on its value *)
+Definition prim_size (p : prim) : option nat :=
+  match p with PU k | PS k => Some k | PLV _ => None end.
+Fixpoint row_size (ps : list prim) : option nat :=
+  match ps with
+  | [] => Some O
+  | p :: ps' =>
+      match prim_size p, row_size ps' with
+      | Some a, Some b => Some (a + b)%nat
+      | _, _ => None
+      end
+  end.
+Definition fixed_size (it : item) : option nat :=
+  match it with
+  | IP p => prim_size p
+  | IFixed m ps => match row_size ps with Some k => Some (m * k)%nat | None => None end
+  | _ => None
+  end.
+(* the total size of the maximal leading run of fixed-size items *)
+Fixpoint fixed_prefix (s : schema) : nat :=
+  match s with
+  | [] => O
+  | it :: s' => match fixed_size it with Some k => (k + fixed_prefix s')%nat | None => O end
+  end.
+
 Fixpoint wf_items (s : schema) : bool :=
   match s with
   | [] => true
@@ -216,6 +245,8 @@ Fixpoint wf_items (s : schema) : bool :=
   | IP p :: s' => wf_prim p && wf_items s'
   | ILV pfx ps :: s' => (0 <? pfx)%nat && wf_row ps && wf_items s'
   | IFixed _ ps :: s' => wf_row ps && wf_items s'
+  (* the padding quirk never fires on encoder output: more than w bytes always follow *)
+  | IPad w _ _ :: s' => (w <? fixed_prefix s')%nat && wf_items s'
   | _ :: _ => false          (* a greedy / optional / conditional item that is not last *)
   end.
 
